@@ -3,8 +3,9 @@ import Prom.Lemmas.Guard
 import Prom.HP.Order
 /-
 Refinement: every item the replay machine `Prom.HM.item` accepts is a stutter, exactly one
-`Hp.Step` of the abstraction `HM.abs`, or exactly two (only when a collector skipped the no-op
-`fetch_add(0)` of an `addHot` step: the first of the two is that `addHot` of 0). Hence every state the machine reaches while replaying a
+`Hp.Step` of the abstraction `HM.abs`, or exactly two (only when a collector swapped 0 out of a cold bucket:
+the swap, which leaves the shared state as it is, and the `addHot` of 0 of that bucket, whose
+`fetch_add(0)` the code may skip). Hence every state the machine reaches while replaying a
 trace of the real implementation is `Hp.Reach`able, and the C02 / C03 theorems hold of it.
 -/
 namespace Prom.HM
@@ -55,6 +56,22 @@ theorem casLoop_cases {e : Ev} {c : Hp.St} {pc : Pc} {b : Bool} {cell : Nat} {a 
       split at h
       · rw [guard_ok] at h; obtain ⟨_, h⟩ := h; cases h; exact .inr rfl
       · rw [guard_ok] at h; obtain ⟨_, h⟩ := h; cases h; exact .inl ⟨rfl, rfl, rfl⟩
+
+/-- the sum loop never touches the ghost `c0` of the call, given that its step (`onOk`) does not -/
+theorem casLoop_c0' {e : Ev} {c : Hp.St} {pc : Pc} {b : Bool} {cell : Nat} {a : Int} {onOk r : Res}
+    (h : casLoop e c pc b cell a onOk = .ok r) :
+    (r.2.1.c0 = pc.c0 ∧ r.1 = c ∧ r.2.1.task = pc.task ∧ r.2.2 = none) ∨ r = onOk := by
+  unfold casLoop at h
+  split at h
+  · unfold casLoad at h
+    rw [guard_ok] at h; obtain ⟨_, h⟩ := h; cases h; exact .inl ⟨rfl, rfl, rfl, rfl⟩
+  · split at h
+    · unfold casLoad at h
+      rw [guard_ok] at h; obtain ⟨_, h⟩ := h; cases h; exact .inl ⟨rfl, rfl, rfl, rfl⟩
+    · rw [guard_ok] at h; obtain ⟨_, h⟩ := h
+      split at h
+      · rw [guard_ok] at h; obtain ⟨_, h⟩ := h; cases h; exact .inr rfl
+      · rw [guard_ok] at h; obtain ⟨_, h⟩ := h; cases h; exact .inl ⟨rfl, rfl, rfl, rfl⟩
 
 /-- **both loops are accepted** — after a failed compare-exchange (`cur` is the value it reported and
     `failed` is set) the loop accepts a load exactly as a fresh load does (the reloading loop) and
@@ -193,7 +210,7 @@ theorem fetchAdd_after_failure (e : Ev) (c : Hp.St) (pc : Pc) (loc : Loc) (ord :
 
 /-- what `splitFirst` returns is a split of the list at an entry satisfying `f` before which no
     entry satisfies `f` -/
-theorem splitFirst_spec {f : Nat × Int → Bool} : ∀ {l : List (Nat × Int)} {l1 q l2},
+theorem splitFirst_spec {α : Type} {f : α → Bool} : ∀ {l : List α} {l1 q l2},
     splitFirst f l = some (l1, q, l2) → l = l1 ++ q :: l2 ∧ f q = true ∧ ∀ x ∈ l1, f x = false
   | [], _, _, _, h => by simp [splitFirst] at h
   | p :: l, l1, q, l2, h => by
@@ -214,7 +231,7 @@ theorem splitFirst_spec {f : Nat × Int → Bool} : ∀ {l : List (Nat × Int)} 
       · cases h
 
 /-- `splitFirst` fails only if no entry satisfies `f` -/
-theorem splitFirst_none {f : Nat × Int → Bool} : ∀ {l : List (Nat × Int)},
+theorem splitFirst_none {α : Type} {f : α → Bool} : ∀ {l : List α},
     splitFirst f l = none → ∀ x ∈ l, f x = false
   | [], _ => by simp
   | p :: l, h => by
@@ -232,7 +249,7 @@ theorem splitFirst_none {f : Nat × Int → Bool} : ∀ {l : List (Nat × Int)},
         · exact splitFirst_none hm x hx
 
 /-- the first entry satisfying `f` is found wherever it stands -/
-theorem splitFirst_of_first {f : Nat × Int → Bool} : ∀ (l1 : List (Nat × Int)) (q : Nat × Int) (l2 : List (Nat × Int)),
+theorem splitFirst_of_first {α : Type} {f : α → Bool} : ∀ (l1 : List α) (q : α) (l2 : List α),
     (∀ x ∈ l1, f x = false) → f q = true → splitFirst f (l1 ++ q :: l2) = some (l1, q, l2)
   | [], q, l2, _, hq => by simp [splitFirst, hq]
   | p :: l1, q, l2, h1, hq => by
@@ -271,40 +288,9 @@ theorem pick_of_no_hit {k : Nat} {b : Bool} {loc : Loc} {p : Nat × Int} {l : Li
 
 /-! ### the silent `addHot` of 0 -/
 
-/-- if `skipTask` leaves the task alone, `skipPc` leaves the call state alone -/
-theorem skipPc_of_task_eq {k : Nat} {e : Ev} {pc : Pc} (h : skipTask k (parseLoc e.loc) pc.task = pc.task) :
-    skipPc k e pc = pc := by
-  unfold skipPc; rw [h]
-
-/-- `skipTask` leaves a task alone, or drops the head `addHot cell` of a collector's program when
-    `cell` is a bucket, the collector took 0 out of the cold bucket, and the event is not on the hot bucket -/
-theorem skipTask_cases (k : Nat) (loc : Loc) (t : Option Task) :
-    skipTask k loc t = t ∨
-    ∃ cold ov cell todo taken S, t = some (.colMove cold ov (.addHot cell :: todo) taken S) ∧
-      skipTask k loc t = some (.colMove cold ov todo taken S) ∧ cell < k ∧ taken cell = 0 ∧ loc ≠ .bkt (!cold) cell := by
-  unfold skipTask
-  split
-  · next cold ov cell todo taken S =>
-    split
-    · next hc =>
-      simp only [Bool.and_eq_true, decide_eq_true_eq, bne_iff_ne, ne_eq] at hc
-      exact .inr ⟨cold, ov, cell, todo, taken, S, rfl, rfl, hc.1.1, hc.1.2, hc.2⟩
-    · exact .inl rfl
-  · exact .inl rfl
-
-/-- only a collector whose next step is an `addHot` is ever affected -/
-theorem skipTask_of_not_addHot {k : Nat} {loc : Loc} {t : Option Task}
-    (h : ∀ cold ov cell todo taken S, t ≠ some (.colMove cold ov (.addHot cell :: todo) taken S)) :
-    skipTask k loc t = t := by
-  rcases skipTask_cases k loc t with h' | ⟨cold, ov, cell, todo, taken, S, ht, _⟩
-  · exact h'
-  · exact absurd ht (h cold ov cell todo taken S)
-
-/-- for every task but a collector about to do an `addHot`, the event step is the plain check -/
-theorem evStep_eq_evStep1 {k : Nat} {c : Hp.St} {cuts : Cuts} {e : Ev} {pc : Pc}
-    (h : ∀ cold ov cell todo taken S, pc.task ≠ some (.colMove cold ov (.addHot cell :: todo) taken S)) :
-    evStep k c cuts e pc = evStep1 k c cuts e pc := by
-  unfold evStep; rw [skipPc_of_task_eq (skipTask_of_not_addHot h)]
+/-- the event step is the check `evStep1` (the silent `addHot` of 0 is taken inside the collector's swap) -/
+theorem evStep_eq_evStep1 {k : Nat} {c : Hp.St} {cuts : Cuts} {e : Ev} {pc : Pc} :
+    evStep k c cuts e pc = evStep1 k c cuts e pc := rfl
 
 /-- adding 0 to a cell changes nothing -/
 theorem modSh_add_zero (sh : Bool → Shard) (b : Bool) (cell : Nat) :
@@ -321,42 +307,115 @@ theorem modSh_add_zero (sh : Bool → Shard) (b : Bool) (cell : Nat) :
     rw [this]
   · rfl
 
+/-- resetting a cell that holds 0 changes nothing -/
+theorem modSh_set_zero (sh : Bool → Shard) (b : Bool) (cell : Nat) (h : (sh b).cell cell = 0) :
+    modSh sh b (fun x => { x with cell := setCell x.cell cell 0 }) = sh := by
+  funext b'
+  simp only [modSh]
+  split
+  · next hb =>
+    subst hb
+    have : setCell (sh b').cell cell 0 = (sh b').cell := by
+      funext x
+      simp only [setCell]
+      split
+      · next hx => rw [hx, h]
+      · rfl
+    rw [this]
+  · rfl
+
+/-- `skipTask` skips only the `addHot` of a BUCKET out of which 0 was swapped, whose swap is done; what is
+    left is the list without that step -/
+theorem skipTask_spec {k cell : Nat} {x : Int} {rest rest' : List CStep} (h : skipTask k cell x rest = some rest') :
+    cell < k ∧ x = 0 ∧ CStep.swap cell ∉ rest ∧
+      ∃ m1 m2, rest = m1 ++ CStep.addHot cell :: m2 ∧ rest' = m1 ++ m2 := by
+  unfold skipTask at h
+  split at h
+  · next hc =>
+    simp only [Bool.and_eq_true, decide_eq_true_eq, Bool.not_eq_true', List.contains_eq_mem,
+      decide_eq_false_iff_not] at hc
+    split at h
+    · next m1 q m2 hs =>
+      cases h
+      obtain ⟨e1, e2, _⟩ := splitFirst_spec hs
+      have : q = CStep.addHot cell := by simpa using e2
+      subst this
+      exact ⟨hc.1.1, hc.1.2, hc.2, m1, m2, e1, rfl⟩
+    · cases h
+  · cases h
+
+/-- **the skip is accepted**: out of a bucket (`cell < k`) that holds 0, with `addHot cell` still to do and
+    `swap cell` not to be done again, `skipTask` takes the `addHot cell` -/
+theorem skipTask_of_zero {k cell : Nat} {m1 m2 : List CStep} (hc : cell < k)
+    (hs : CStep.swap cell ∉ m1 ++ CStep.addHot cell :: m2) (h1 : CStep.addHot cell ∉ m1) :
+    skipTask k cell 0 (m1 ++ CStep.addHot cell :: m2) = some (m1 ++ m2) := by
+  unfold skipTask
+  have : (m1 ++ CStep.addHot cell :: m2).contains (CStep.swap cell) = false := by
+    simpa using hs
+  simp only [hc, decide_true, this, Bool.not_false, Bool.and_self, if_true]
+  rw [splitFirst_of_first m1 (CStep.addHot cell) m2 (fun x hx => by
+    simp only [beq_eq_false_iff_ne, ne_eq]; rintro rfl; exact h1 hx) (by simp)]
+
+/-- … and in every other case (the cell is the sum, or the swapped-out value is not 0) nothing is skipped -/
+theorem skipTask_none {k cell : Nat} {x : Int} {rest : List CStep} (h : ¬ (cell < k ∧ x = 0)) :
+    skipTask k cell x rest = none := by
+  unfold skipTask
+  split
+  · next hc =>
+    simp only [Bool.and_eq_true, decide_eq_true_eq] at hc
+    exact absurd ⟨hc.1.1, hc.1.2⟩ h
+  · rfl
+
 /-- **the skipped `fetch_add(0)` is a step of the proof model that changes nothing but the collector's
-    program counter**: the abstract `addHot cell` with `taken cell = 0` -/
-theorem skip_is_step {k : Nat} (c : Hp.St) (pre post : List Task) (cold : Bool) (ov cell : Nat) (todo : List CStep)
-    (taken : Cells) (S : List Obs) (h0 : taken cell = 0) :
-    Hp.Step k (withTasks c (pre ++ [Task.colMove cold ov (.addHot cell :: todo) taken S] ++ post))
-      (withTasks c (pre ++ [Task.colMove cold ov todo taken S] ++ post)) := by
-  have := Step.addHot (k := k) (withTasks c (pre ++ [Task.colMove cold ov (.addHot cell :: todo) taken S] ++ post))
-    pre post cold ov cell todo taken S (by simp [withTasks])
+    list of steps**: the abstract `addHot cell` with `taken cell = 0` -/
+theorem skip_is_step {k : Nat} (c : Hp.St) (pre post : List Task) (cold : Bool) (ov cell : Nat) (m1 m2 : List CStep)
+    (taken : Cells) (S : List Obs) (h0 : taken cell = 0) (hs : CStep.swap cell ∉ m1 ++ m2) :
+    Hp.Step k (withTasks c (pre ++ [Task.colMove cold ov (m1 ++ CStep.addHot cell :: m2) taken S] ++ post))
+      (withTasks c (pre ++ [Task.colMove cold ov (m1 ++ m2) taken S] ++ post)) := by
+  have := Step.addHot (k := k) (withTasks c (pre ++ [Task.colMove cold ov (m1 ++ CStep.addHot cell :: m2) taken S] ++ post))
+    pre post cold ov cell m1 m2 taken S (by simp [withTasks]) hs
   simp only [withTasks, h0, modSh_add_zero] at this
   simpa [withTasks] using this
 
-/-- **the skip is accepted**: a collector whose next step is `addHot cell` on a bucket out of which it
-    swapped 0 treats an event that is not on the hot bucket `cell` exactly as it would with that step
-    already done -/
-theorem addHot_zero_skipped {k : Nat} {c : Hp.St} {cuts : Cuts} {e : Ev} {pc : Pc} {cold : Bool} {ov cell : Nat}
-    {todo : List CStep} {taken : Cells} {S : List Obs}
-    (ht : pc.task = some (.colMove cold ov (.addHot cell :: todo) taken S))
-    (hc : cell < k) (h0 : taken cell = 0) (hl : parseLoc e.loc ≠ .bkt (!cold) cell) :
-    evStep k c cuts e pc = evStep1 k c cuts e { pc with task := some (.colMove cold ov todo taken S) } := by
-  unfold evStep skipPc
-  rw [ht]
-  simp [skipTask, hc, h0, hl]
-
-/-- … and in every other case (the event IS on the hot bucket, the swapped-out value is not 0, or the
-    cell is the sum) nothing is skipped: the event is checked against the `addHot` step as before -/
-theorem addHot_not_skipped {k : Nat} {c : Hp.St} {cuts : Cuts} {e : Ev} {pc : Pc} {cold : Bool} {ov cell : Nat}
-    {todo : List CStep} {taken : Cells} {S : List Obs}
-    (ht : pc.task = some (.colMove cold ov (.addHot cell :: todo) taken S))
-    (h : ¬ (cell < k ∧ taken cell = 0 ∧ parseLoc e.loc ≠ .bkt (!cold) cell)) :
-    evStep k c cuts e pc = evStep1 k c cuts e pc := by
-  unfold evStep
-  rw [skipPc_of_task_eq]
-  rcases skipTask_cases k (parseLoc e.loc) pc.task with hs | ⟨cold', ov', cell', todo', taken', S', ht', _, h1, h2, h3⟩
-  · exact hs
-  · rw [ht] at ht'; cases ht'
-    exact absurd ⟨h1, h2, h3⟩ h
+/-- **the swap of a cold cell** (`swapRes`) is one step of the proof model - `swap cell`, taken from anywhere
+    in the collector's list -, or two: when the cell is a bucket that held 0, the swap - which then leaves the
+    shared state as it is - and the `addHot cell` of 0 (`skip_is_step`) -/
+theorem swapRes_refines {k : Nat} {c : Hp.St} {pc : Pc} {cold : Bool} {ov cell : Nat} {l1 l2 : List CStep}
+    {taken : Cells} {S : List Obs} {c' : Hp.St} {pc' : Pc} {rv : Option String}
+    (h : swapRes k c pc cold ov cell (l1 ++ l2) taken S = (c', pc', rv)) (pre post : List Task) :
+    Hp.Step k (withTasks c (pre ++ [Task.colMove cold ov (l1 ++ CStep.swap cell :: l2) taken S] ++ post))
+        (withTasks c' (pre ++ pc'.task.toList ++ post)) ∨
+    ∃ ts, Hp.Step k (withTasks c (pre ++ [Task.colMove cold ov (l1 ++ CStep.swap cell :: l2) taken S] ++ post)) (withTasks c ts) ∧
+          Hp.Step k (withTasks c ts) (withTasks c' (pre ++ pc'.task.toList ++ post)) := by
+  have hstep := Step.swap (k := k) (withTasks c (pre ++ [Task.colMove cold ov (l1 ++ CStep.swap cell :: l2) taken S] ++ post))
+    pre post cold ov cell l1 l2 taken S (by simp [withTasks])
+  unfold swapRes at h
+  simp only at h
+  split at h
+  · next rest' hsk =>
+    cases h
+    obtain ⟨_, hx, hns, m1, m2, e1, e2⟩ := skipTask_spec hsk
+    subst e2
+    have hsh : modSh c.sh cold (fun sd => { sd with cell := setCell sd.cell cell 0 }) = c.sh :=
+      modSh_set_zero c.sh cold cell hx
+    right
+    refine ⟨pre ++ [Task.colMove cold ov (l1 ++ l2) (setCell taken cell ((c.sh cold).cell cell)) S] ++ post, ?_, ?_⟩
+    · simp only [withTasks] at hstep
+      rw [hsh] at hstep
+      simpa [withTasks] using hstep
+    · rw [hsh, e1]
+      have h0 : setCell taken cell ((c.sh cold).cell cell) cell = 0 := by simp [hx]
+      have hs' : CStep.swap cell ∉ m1 ++ m2 := by
+        intro hm; apply hns; rw [e1]
+        simp only [List.mem_append, List.mem_cons] at hm ⊢
+        rcases hm with hm | hm
+        · exact .inl hm
+        · exact .inr (.inr hm)
+      have := skip_is_step (k := k) c pre post cold ov cell m1 m2 (setCell taken cell ((c.sh cold).cell cell)) S h0 hs'
+      simpa [withTasks] using this
+  · cases h
+    left
+    simpa [withTasks] using hstep
 
 /-- the `obsRun` arm of the machine is `obsEntry` on the entry `pick` selects -/
 theorem evStep_obsRun {k : Nat} {c : Hp.St} {cuts : Cuts} {e : Ev} {pc : Pc} {o : Obs} {b : Bool}
@@ -364,7 +423,7 @@ theorem evStep_obsRun {k : Nat} {c : Hp.St} {cuts : Cuts} {e : Ev} {pc : Pc} {o 
     evStep k c cuts e pc =
       plainR cuts (obsEntry k c e pc o b (pick k b (parseLoc e.loc) p l).2.1.1 (pick k b (parseLoc e.loc) p l).2.1.2
         ((pick k b (parseLoc e.loc) p l).1 ++ (pick k b (parseLoc e.loc) p l).2.2)) := by
-  rw [evStep_eq_evStep1 (by intros; simp [ht])]
+  rw [evStep_eq_evStep1]
   unfold evStep1
   simp only [ht]
 
@@ -419,12 +478,268 @@ theorem obsEntry_bucket_keeps_loop {k : Nat} {c : Hp.St} {e : Ev} {pc : Pc} {o :
   · cases hr; exact ⟨rfl, rfl, .inr ⟨rfl, rfl, rfl⟩⟩
   · cases hr; exact ⟨rfl, rfl, .inl rfl⟩
 
-/-- the check of one event against the current task is a stutter or exactly one step -/
+/-! ### the collector's drain in any order -/
+
+/-- **what the collector's arm accepts** (task `colMove cold ov todo taken S`): a stutter (a load / failed
+    exchange of a loop; the `fetch_add(0)` of an `addHot` that was taken silently), exactly one step of the
+    proof model - `swap`, `addHot`, `addCount` taken from ANYWHERE in `todo`, or `unlock` when it is all that
+    is left -, or exactly two (`swapRes_refines`) -/
+theorem colStep_refines {k : Nat} {c : Hp.St} {cuts : Cuts} {e : Ev} {pc : Pc} {cold : Bool} {ov : Nat}
+    {todo : List CStep} {taken : Cells} {S : List Obs} {c' : Hp.St} {pc' : Pc} {rv : Option String} {cuts' : Cuts}
+    (ht : pc.task = some (.colMove cold ov todo taken S))
+    (h : colStep k c cuts e pc cold ov todo taken S = .ok ((c', pc', rv), cuts')) (pre post : List Task) :
+    withTasks c' (pre ++ pc'.task.toList ++ post) = withTasks c (pre ++ pc.task.toList ++ post) ∨
+    Hp.Step k (withTasks c (pre ++ pc.task.toList ++ post)) (withTasks c' (pre ++ pc'.task.toList ++ post)) ∨
+    ∃ ts, Hp.Step k (withTasks c (pre ++ pc.task.toList ++ post)) (withTasks c ts) ∧
+          Hp.Step k (withTasks c ts) (withTasks c' (pre ++ pc'.task.toList ++ post)) := by
+  unfold colStep at h
+  simp only at h
+  split at h
+  · -- swap
+    next l1 cell l2 hsp =>
+    obtain ⟨e1, _, _⟩ := splitFirst_spec hsp
+    subst e1
+    have hT : pc.task.toList = [Task.colMove cold ov (l1 ++ CStep.swap cell :: l2) taken S] := by simp [ht]
+    rw [hT]
+    right
+    split at h
+    · rw [plainR_ok, guard_ok] at h
+      obtain ⟨⟨_, h⟩, _⟩ := h
+      exact swapRes_refines (Except.ok.inj h) pre post
+    · rw [plainR_ok, guard_ok] at h
+      obtain ⟨⟨_, h⟩, _⟩ := h
+      exact swapRes_refines (Except.ok.inj h) pre post
+  · -- addHot
+    next l1 cell l2 hsp =>
+    obtain ⟨e1, _, _⟩ := splitFirst_spec hsp
+    subst e1
+    split at h
+    · cases h
+    · next hns =>
+      have hs : CStep.swap cell ∉ l1 ++ l2 := by simpa using hns
+      have hstep := Step.addHot (k := k) (withTasks c (pre ++ pc.task.toList ++ post)) pre post cold ov cell l1 l2 taken S
+        (by simp [withTasks, ht]) hs
+      split at h
+      · rw [plainR_ok] at h
+        obtain ⟨h, _⟩ := h
+        rcases fetchAdd_cases h with ⟨⟨ic, f, hr⟩, _⟩ | ⟨hr, _⟩
+        · cases hr; left; rfl
+        · cases hr; right; left; simpa [withTasks, ht, faDone] using hstep
+      · rw [plainR_ok] at h
+        obtain ⟨h, _⟩ := h
+        rcases casLoop_cases h with ⟨h1, h2, _⟩ | h1
+        · simp only at h1 h2; subst h1; left; simp [withTasks, h2]
+        · cases h1; right; left; simpa [withTasks, ht] using hstep
+  · -- addCount
+    next l1 l2 hsp =>
+    obtain ⟨e1, _, _⟩ := splitFirst_spec hsp
+    subst e1
+    rw [plainR_ok] at h
+    obtain ⟨h, _⟩ := h
+    rcases fetchAdd_cases h with ⟨⟨ic, f, hr⟩, _⟩ | ⟨hr, _⟩
+    · cases hr; left; rfl
+    · cases hr
+      right; left
+      have := Step.addCount (k := k) (withTasks c (pre ++ pc.task.toList ++ post)) pre post cold ov l1 l2 taken S (by simp [withTasks, ht])
+      simpa [withTasks, ht, faDone] using this
+  · -- unlock
+    next l1 l2 hsp =>
+    obtain ⟨e1, _, _⟩ := splitFirst_spec hsp
+    subst e1
+    split at h
+    · cases h
+    · next hemp =>
+      have hl : l1 = [] ∧ l2 = [] := by simpa using hemp
+      obtain ⟨rfl, rfl⟩ := hl
+      split at h
+      · cases h
+      · cases h
+        right; left
+        have := Step.unlock (k := k) (withTasks c (pre ++ pc.task.toList ++ post)) pre post cold ov taken S (by simp [withTasks, ht])
+        simpa [withTasks, ht] using this
+  · -- no remaining step on this location
+    split at h
+    · rw [plainR_ok] at h
+      obtain ⟨h, _⟩ := h
+      rcases fetchAdd_cases h with ⟨⟨ic, f, hr⟩, _⟩ | ⟨hr, _⟩
+      · cases hr; left; rfl
+      · cases hr; left; rfl
+    · cases h
+
+/-- **the shape of what the collector's arm accepts**: the call keeps its ghost `c0`, nothing is claimed, and
+    either the call is still the same collector (same `cold`, `ov`, cut `S`; no snapshot, no return value) or
+    it was the `unlock`: the call is complete, the snapshot `(ov, taken)` with cut `S` is recorded -/
+theorem colStep_cases {k : Nat} {c : Hp.St} {cuts : Cuts} {e : Ev} {pc : Pc} {cold : Bool} {ov : Nat}
+    {todo : List CStep} {taken : Cells} {S : List Obs} {c' : Hp.St} {pc' : Pc} {rv : Option String} {cuts' : Cuts}
+    (ht : pc.task = some (.colMove cold ov todo taken S))
+    (h : colStep k c cuts e pc cold ov todo taken S = .ok ((c', pc', rv), cuts')) :
+    pc'.c0 = pc.c0 ∧ c'.claimed = c.claimed ∧
+    (((∃ todo' taken', pc'.task = some (.colMove cold ov todo' taken' S)) ∧ cuts' = cuts ∧ c'.snaps = c.snaps ∧ rv = none) ∨
+     (todo = [CStep.unlock] ∧ pc'.task = none ∧ cuts' = cuts ++ [⟨pc.c0, S, c.claimed, showSnap k ov taken⟩] ∧
+        c'.snaps = c.snaps ++ [(⟨ov, taken⟩, S)] ∧ rv = some (showSnap k ov taken))) := by
+  unfold colStep at h
+  simp only at h
+  split at h
+  · -- swap
+    next l1 cell l2 hsp =>
+    have key : ∀ {r : Res}, swapRes k c pc cold ov cell (l1 ++ l2) taken S = r →
+        r.2.1.c0 = pc.c0 ∧ r.1.claimed = c.claimed ∧ (∃ todo' taken', r.2.1.task = some (.colMove cold ov todo' taken' S)) ∧
+          r.1.snaps = c.snaps ∧ r.2.2 = none := by
+      intro r hr
+      unfold swapRes at hr
+      simp only at hr
+      split at hr <;> (cases hr; exact ⟨rfl, rfl, ⟨_, _, rfl⟩, rfl, rfl⟩)
+    split at h
+    · rw [plainR_ok, guard_ok] at h
+      obtain ⟨⟨_, h⟩, hc⟩ := h
+      obtain ⟨k1, k2, k3, k4, k5⟩ := key (Except.ok.inj h)
+      exact ⟨k1, k2, .inl ⟨k3, hc, k4, k5⟩⟩
+    · rw [plainR_ok, guard_ok] at h
+      obtain ⟨⟨_, h⟩, hc⟩ := h
+      obtain ⟨k1, k2, k3, k4, k5⟩ := key (Except.ok.inj h)
+      exact ⟨k1, k2, .inl ⟨k3, hc, k4, k5⟩⟩
+  · -- addHot
+    next l1 cell l2 hsp =>
+    split at h
+    · cases h
+    · split at h
+      · rw [plainR_ok] at h
+        obtain ⟨h, hc⟩ := h
+        rcases fetchAdd_cases h with ⟨⟨ic, f, hr⟩, _⟩ | ⟨hr, _⟩
+        · cases hr; exact ⟨rfl, rfl, .inl ⟨⟨_, _, ht⟩, hc, rfl, rfl⟩⟩
+        · cases hr; exact ⟨rfl, rfl, .inl ⟨⟨_, _, rfl⟩, hc, rfl, rfl⟩⟩
+      · rw [plainR_ok] at h
+        obtain ⟨h, hc⟩ := h
+        rcases casLoop_c0' h with ⟨h0, h1, h2, h3⟩ | h1
+        · simp only at h0 h1 h2 h3; subst h1 h3
+          exact ⟨h0, rfl, .inl ⟨⟨_, _, h2.trans ht⟩, hc, rfl, rfl⟩⟩
+        · cases h1; exact ⟨rfl, rfl, .inl ⟨⟨_, _, rfl⟩, hc, rfl, rfl⟩⟩
+  · -- addCount
+    next l1 l2 hsp =>
+    rw [plainR_ok] at h
+    obtain ⟨h, hc⟩ := h
+    rcases fetchAdd_cases h with ⟨⟨ic, f, hr⟩, _⟩ | ⟨hr, _⟩
+    · cases hr; exact ⟨rfl, rfl, .inl ⟨⟨_, _, ht⟩, hc, rfl, rfl⟩⟩
+    · cases hr; exact ⟨rfl, rfl, .inl ⟨⟨_, _, rfl⟩, hc, rfl, rfl⟩⟩
+  · -- unlock
+    next l1 l2 hsp =>
+    obtain ⟨e1, _, _⟩ := splitFirst_spec hsp
+    split at h
+    · cases h
+    · next hemp =>
+      have hl : l1 = [] ∧ l2 = [] := by simpa using hemp
+      obtain ⟨rfl, rfl⟩ := hl
+      split at h
+      · cases h
+      · cases h
+        exact ⟨rfl, rfl, .inr ⟨e1, rfl, rfl, rfl, rfl⟩⟩
+  · split at h
+    · rw [plainR_ok] at h
+      obtain ⟨h, hc⟩ := h
+      rcases fetchAdd_cases h with ⟨⟨ic, f, hr⟩, _⟩ | ⟨hr, _⟩
+      · cases hr; exact ⟨rfl, rfl, .inl ⟨⟨_, _, ht⟩, hc, rfl, rfl⟩⟩
+      · cases hr; exact ⟨rfl, rfl, .inl ⟨⟨_, _, ht⟩, hc, rfl, rfl⟩⟩
+    · cases h
+
+/-- the `colMove` arm of the machine is `colStep` -/
+theorem evStep_colMove {k : Nat} {c : Hp.St} {cuts : Cuts} {e : Ev} {pc : Pc} {cold : Bool} {ov : Nat}
+    {todo : List CStep} {taken : Cells} {S : List Obs} (ht : pc.task = some (.colMove cold ov todo taken S)) :
+    evStep k c cuts e pc = colStep k c cuts e pc cold ov todo taken S := by
+  unfold evStep evStep1
+  simp only [ht]
+
+/-- **any order is accepted** — a collector whose remaining steps are `l1 ++ st :: l2` treats an event on the
+    location of `st` (no earlier step of the list works on that location) exactly as it treats the event when
+    `st` is the head of the list: it checks the event against `st`, and `l1 ++ l2` is what remains. With
+    `l1 = []` this is the old behaviour (the fixed program order). -/
+theorem colStep_any_step {k : Nat} {c : Hp.St} {cuts : Cuts} {e : Ev} {pc : Pc} {cold : Bool} {ov : Nat}
+    {l1 l2 : List CStep} {st : CStep} {taken : Cells} {S : List Obs}
+    (h1 : ∀ x ∈ l1, stepLoc k cold x ≠ parseLoc e.loc) (hq : stepLoc k cold st = parseLoc e.loc) :
+    colStep k c cuts e pc cold ov (l1 ++ st :: l2) taken S = colStep k c cuts e pc cold ov (st :: (l1 ++ l2)) taken S := by
+  have hf1 : ∀ x ∈ l1, (fun st => stepLoc k cold st == parseLoc e.loc) x = false := by
+    intro x hx; simpa using h1 x hx
+  have hfq : (fun st => stepLoc k cold st == parseLoc e.loc) st = true := by simpa using hq
+  have e1 := splitFirst_of_first l1 st l2 hf1 hfq
+  have e2 := splitFirst_of_first (f := fun st => stepLoc k cold st == parseLoc e.loc) [] st (l1 ++ l2) (by simp) hfq
+  simp only [List.nil_append] at e2
+  unfold colStep
+  simp only [e1, e2]
+  cases st <;> simp
+
+/-- **an `addHot` before its `swap` is rejected**: the step the event selects is `addHot cell` while
+    `swap cell` is still to be done -/
+theorem colStep_rejects_addHot_before_swap {k : Nat} {c : Hp.St} {cuts : Cuts} {e : Ev} {pc : Pc} {cold : Bool}
+    {ov cell : Nat} {l1 l2 : List CStep} {taken : Cells} {S : List Obs}
+    (h1 : ∀ x ∈ l1, stepLoc k cold x ≠ parseLoc e.loc) (hq : stepLoc k cold (.addHot cell) = parseLoc e.loc)
+    (hs : CStep.swap cell ∈ l1 ++ l2) :
+    ∃ m, colStep k c cuts e pc cold ov (l1 ++ CStep.addHot cell :: l2) taken S = .error m := by
+  have hf1 : ∀ x ∈ l1, (fun st => stepLoc k cold st == parseLoc e.loc) x = false := by
+    intro x hx; simpa using h1 x hx
+  have hfq : (fun st => stepLoc k cold st == parseLoc e.loc) (CStep.addHot cell) = true := by simpa using hq
+  have e1 := splitFirst_of_first l1 (CStep.addHot cell) l2 hf1 hfq
+  have hc : (l1 ++ l2).contains (CStep.swap cell) = true := by simpa using hs
+  unfold colStep
+  simp only [e1, hc, if_true]
+  exact ⟨_, rfl⟩
+
+/-- **an `unlock` before the end is rejected**: the event selects the `unlock` while other steps are left -/
+theorem colStep_rejects_early_unlock {k : Nat} {c : Hp.St} {cuts : Cuts} {e : Ev} {pc : Pc} {cold : Bool}
+    {ov : Nat} {l1 l2 : List CStep} {taken : Cells} {S : List Obs}
+    (h1 : ∀ x ∈ l1, stepLoc k cold x ≠ parseLoc e.loc) (hq : stepLoc k cold .unlock = parseLoc e.loc)
+    (hne : l1 ++ l2 ≠ []) :
+    ∃ m, colStep k c cuts e pc cold ov (l1 ++ CStep.unlock :: l2) taken S = .error m := by
+  have hf1 : ∀ x ∈ l1, (fun st => stepLoc k cold st == parseLoc e.loc) x = false := by
+    intro x hx; simpa using h1 x hx
+  have hfq : (fun st => stepLoc k cold st == parseLoc e.loc) CStep.unlock = true := by simpa using hq
+  have e1 := splitFirst_of_first l1 CStep.unlock l2 hf1 hfq
+  have hc : (!(l1 ++ l2).isEmpty) = true := by
+    cases h : l1 ++ l2 with
+    | nil => exact absurd h hne
+    | cons _ _ => rfl
+  unfold colStep
+  simp only [e1, hc, if_true]
+  exact ⟨_, rfl⟩
+
+/-- **an event no remaining step works on is rejected** (unless it is the `fetch_add(0)` of an `addHot` the
+    machine has taken silently): in particular a second swap of a cold cell - the list is duplicate-free
+    (`Hp.TodoWf`), so once `swap cell` is taken no step on that cold cell is left - and a second `addHot` -/
+theorem colStep_rejects_no_step {k : Nat} {c : Hp.St} {cuts : Cuts} {e : Ev} {pc : Pc} {cold : Bool}
+    {ov : Nat} {todo : List CStep} {taken : Cells} {S : List Obs}
+    (h : ∀ x ∈ todo, stepLoc k cold x ≠ parseLoc e.loc) (hz : ∀ z ∈ pc.zeros, parseLoc e.loc ≠ .bkt (!cold) z) :
+    ∃ m, colStep k c cuts e pc cold ov todo taken S = .error m := by
+  have e1 : splitFirst (fun st => stepLoc k cold st == parseLoc e.loc) todo = none := by
+    cases hs : splitFirst (fun st => stepLoc k cold st == parseLoc e.loc) todo with
+    | none => rfl
+    | some t =>
+      obtain ⟨l1, q, l2⟩ := t
+      obtain ⟨e1, e2, _⟩ := splitFirst_spec hs
+      exact absurd (by simpa using e2) (h q (by rw [e1]; simp))
+  have e2 : pc.zeros.find? (fun z => parseLoc e.loc == .bkt (!cold) z) = none := by
+    rw [List.find?_eq_none]
+    intro z hz'; simpa using hz z hz'
+  unfold colStep
+  simp only [e1, e2]
+  exact ⟨_, rfl⟩
+
+/-- **the load of a test-and-test-and-set wait loop is accepted**: while a collector spins, a load (any
+    ordering) of the cold shard's count that returns the count changes nothing at all -/
+theorem colSpin_load_accepted {k : Nat} {c : Hp.St} {cuts : Cuts} {pc : Pc} {cold : Bool} {ov : Nat} {S : List Obs}
+    (ht : pc.task = some (.colSpin cold ov S)) (t : Nat) (l o : String) (a b : UInt64) (ok : Bool)
+    (hl : parseLoc l = .cnt cold) :
+    evStep k c cuts ⟨t, "L", l, o, a, b, (c.sh cold).count.toUInt64, ok⟩ pc = .ok ((c, pc, none), cuts) := by
+  have hrel : ordGe o "Relaxed" = true := by simp [ordGe]
+  unfold evStep evStep1
+  simp [ht, hl, hrel, Conc.guard, plainR]
+
+/-- the check of one event against the current task is a stutter, exactly one step, or (the collector's swap
+    of a bucket that holds 0, `swapRes_refines`) exactly two steps -/
 theorem evStep1_refines {k : Nat} {c : Hp.St} {cuts : Cuts} {e : Ev} {pc : Pc} {c' : Hp.St} {pc' : Pc}
     {rv : Option String} {cuts' : Cuts}
     (h : evStep1 k c cuts e pc = .ok ((c', pc', rv), cuts')) (pre post : List Task) :
     withTasks c' (pre ++ pc'.task.toList ++ post) = withTasks c (pre ++ pc.task.toList ++ post) ∨
-    Hp.Step k (withTasks c (pre ++ pc.task.toList ++ post)) (withTasks c' (pre ++ pc'.task.toList ++ post)) := by
+    Hp.Step k (withTasks c (pre ++ pc.task.toList ++ post)) (withTasks c' (pre ++ pc'.task.toList ++ post)) ∨
+    ∃ ts, Hp.Step k (withTasks c (pre ++ pc.task.toList ++ post)) (withTasks c ts) ∧
+          Hp.Step k (withTasks c ts) (withTasks c' (pre ++ pc'.task.toList ++ post)) := by
   unfold evStep1 at h
   simp only at h
   split at h
@@ -439,7 +754,7 @@ theorem evStep1_refines {k : Nat} {c : Hp.St} {cuts : Cuts} {e : Ev} {pc : Pc} {
     rcases fetchAdd_cases h with ⟨⟨ic, f, hr⟩, _⟩ | ⟨hr, _⟩
     · cases hr; left; rfl
     · cases hr
-      right
+      right; left
       have := Step.claim (k := k) (withTasks c (pre ++ pc.task.toList ++ post)) pre post o (by simp [withTasks, ht])
       simpa [withTasks, ht, faDone] using this
   · -- obsRun, an update left: the entry the event's location selects
@@ -455,12 +770,12 @@ theorem evStep1_refines {k : Nat} {c : Hp.St} {cuts : Cuts} {e : Ev} {pc : Pc} {
       obtain ⟨h, _⟩ := h
       rcases fetchAdd_cases h with ⟨⟨ic, f, hr⟩, _⟩ | ⟨hr, _⟩
       · cases hr; left; rfl
-      · cases hr; right; simpa [withTasks, ht, faDone] using hstep
+      · cases hr; right; left; simpa [withTasks, ht, faDone] using hstep
     · rw [plainR_ok] at h
       obtain ⟨h, _⟩ := h
       rcases casLoop_cases h with ⟨h1, h2, _⟩ | h1
       · simp only at h1 h2; subst h1; left; simp [withTasks, h2]
-      · cases h1; right; simpa [withTasks, ht] using hstep
+      · cases h1; right; left; simpa [withTasks, ht] using hstep
   · -- obsRun, publish
     next o b ht =>
     rw [plainR_ok] at h
@@ -468,14 +783,14 @@ theorem evStep1_refines {k : Nat} {c : Hp.St} {cuts : Cuts} {e : Ev} {pc : Pc} {
     rcases fetchAdd_cases h with ⟨⟨ic, f, hr⟩, _⟩ | ⟨hr, _⟩
     · cases hr; left; rfl
     · cases hr
-      right
+      right; left
       have := Step.publish (k := k) (withTasks c (pre ++ pc.task.toList ++ post)) pre post o b (by simp [withTasks, ht])
       simpa [withTasks, ht, faDone] using this
   · -- colWant: acquire
     next ht =>
     rw [plainR_ok, guard_ok] at h
     obtain ⟨⟨hg, h⟩, _⟩ := h; cases h
-    right
+    right; left
     have hl : c.lock = false := by simp at hg; exact hg.2
     have := Step.acquire (k := k) (withTasks c (pre ++ pc.task.toList ++ post)) pre post (by simp [withTasks, ht]) (by simp [withTasks, hl])
     simpa [withTasks, ht] using this
@@ -490,7 +805,7 @@ theorem evStep1_refines {k : Nat} {c : Hp.St} {cuts : Cuts} {e : Ev} {pc : Pc} {
           obtain ⟨⟨_, h⟩, _⟩ := h; cases h; left; rfl
         · rw [plainR_ok, guard_ok] at h
           obtain ⟨⟨_, h⟩, _⟩ := h; cases h
-          right
+          right; left
           have := Step.release (k := k) (withTasks c (pre ++ pc.task.toList ++ post)) pre post (by simp [withTasks, ht])
           simpa [withTasks, ht] using this
     · rw [plainR_ok] at h
@@ -498,92 +813,40 @@ theorem evStep1_refines {k : Nat} {c : Hp.St} {cuts : Cuts} {e : Ev} {pc : Pc} {
       rcases fetchAdd_cases h with ⟨⟨ic, f, hr⟩, _⟩ | ⟨hr, _⟩
       · cases hr; left; rfl
       · cases hr
-        right
+        right; left
         have := Step.flip (k := k) (withTasks c (pre ++ pc.task.toList ++ post)) pre post (by simp [withTasks, ht])
         simpa [withTasks, ht, faDone] using this
   · -- colSpin
     next cold ov S ht =>
-    rw [plainR_ok, guard_ok] at h
-    obtain ⟨⟨_, h⟩, _⟩ := h
     split at h
-    · rw [guard_ok] at h
-      obtain ⟨hg, h⟩ := h; cases h
-      right
-      have hc : (c.sh cold).count = ov := by simpa using hg
-      have := Step.spinOk (k := k) (withTasks c (pre ++ pc.task.toList ++ post)) pre post cold ov S (by simp [withTasks, ht]) (by simp [withTasks, hc])
-      simpa [withTasks, ht] using this
-    · rw [guard_ok] at h
-      obtain ⟨_, h⟩ := h; cases h; left; rfl
-  · -- swap
-    next cold ov cell todo taken S ht =>
-    have hstep := Step.swap (k := k) (withTasks c (pre ++ pc.task.toList ++ post)) pre post cold ov cell todo taken S (by simp [withTasks, ht])
-    split at h
+    · -- the load of the test-and-test-and-set loop
+      rw [plainR_ok, guard_ok] at h
+      obtain ⟨⟨_, h⟩, _⟩ := h; cases h; left; rfl
     · rw [plainR_ok, guard_ok] at h
-      obtain ⟨⟨_, h⟩, _⟩ := h; cases h
-      right; simpa [withTasks, ht] using hstep
-    · rw [plainR_ok, guard_ok] at h
-      obtain ⟨⟨_, h⟩, _⟩ := h; cases h
-      right; simpa [withTasks, ht] using hstep
-  · -- addHot
-    next cold ov cell todo taken S ht =>
-    have hstep := Step.addHot (k := k) (withTasks c (pre ++ pc.task.toList ++ post)) pre post cold ov cell todo taken S (by simp [withTasks, ht])
-    split at h
-    · rw [plainR_ok] at h
-      obtain ⟨h, _⟩ := h
-      rcases fetchAdd_cases h with ⟨⟨ic, f, hr⟩, _⟩ | ⟨hr, _⟩
-      · cases hr; left; rfl
-      · cases hr; right; simpa [withTasks, ht, faDone] using hstep
-    · rw [plainR_ok] at h
-      obtain ⟨h, _⟩ := h
-      rcases casLoop_cases h with ⟨h1, h2, _⟩ | h1
-      · simp only at h1 h2; subst h1; left; simp [withTasks, h2]
-      · cases h1; right; simpa [withTasks, ht] using hstep
-  · -- addCount
-    next cold ov todo taken S ht =>
-    rw [plainR_ok] at h
-    obtain ⟨h, _⟩ := h
-    rcases fetchAdd_cases h with ⟨⟨ic, f, hr⟩, _⟩ | ⟨hr, _⟩
-    · cases hr; left; rfl
-    · cases hr
-      right
-      have := Step.addCount (k := k) (withTasks c (pre ++ pc.task.toList ++ post)) pre post cold ov todo taken S (by simp [withTasks, ht])
-      simpa [withTasks, ht, faDone] using this
-  · -- unlock
-    next cold ov todo taken S ht =>
-    split at h
-    · cases h
-    · cases h
-      right
-      have := Step.unlock (k := k) (withTasks c (pre ++ pc.task.toList ++ post)) pre post cold ov todo taken S (by simp [withTasks, ht])
-      simpa [withTasks, ht] using this
-  · cases h
+      obtain ⟨⟨_, h⟩, _⟩ := h
+      split at h
+      · rw [guard_ok] at h
+        obtain ⟨hg, h⟩ := h; cases h
+        right; left
+        have hc : (c.sh cold).count = ov := by simpa using hg
+        have := Step.spinOk (k := k) (withTasks c (pre ++ pc.task.toList ++ post)) pre post cold ov S (by simp [withTasks, ht]) (by simp [withTasks, hc])
+        simpa [withTasks, ht] using this
+      · rw [guard_ok] at h
+        obtain ⟨_, h⟩ := h; cases h; left; rfl
+  · -- colMove
+    next cold ov todo taken S ht => exact colStep_refines ht h pre post
 
-
-/-- **one accepted event** is a stutter, exactly one step of the proof model, or — when the collector
-    skipped the no-op `fetch_add(0)` of an `addHot` step (`skipTask`) — exactly two steps, the first of
-    which is that `addHot` of 0 and changes nothing but the collector's task (`ts`) -/
+/-- **one accepted event** is a stutter, exactly one step of the proof model, or — when a collector swapped 0
+    out of a cold bucket and thereby took the no-op `addHot` of that bucket too (`skipTask`) — exactly two
+    steps, the first of which (the swap of a cell that holds 0) changes nothing but the collector's task (`ts`) -/
 theorem evStep_refines {k : Nat} {c : Hp.St} {cuts : Cuts} {e : Ev} {pc : Pc} {c' : Hp.St} {pc' : Pc}
     {rv : Option String} {cuts' : Cuts}
     (h : evStep k c cuts e pc = .ok ((c', pc', rv), cuts')) (pre post : List Task) :
     withTasks c' (pre ++ pc'.task.toList ++ post) = withTasks c (pre ++ pc.task.toList ++ post) ∨
     Hp.Step k (withTasks c (pre ++ pc.task.toList ++ post)) (withTasks c' (pre ++ pc'.task.toList ++ post)) ∨
     ∃ ts, Hp.Step k (withTasks c (pre ++ pc.task.toList ++ post)) (withTasks c ts) ∧
-          Hp.Step k (withTasks c ts) (withTasks c' (pre ++ pc'.task.toList ++ post)) := by
-  unfold evStep at h
-  have h1 := evStep1_refines h pre post
-  rcases skipTask_cases k (parseLoc e.loc) pc.task with hs | ⟨cold, ov, cell, todo, taken, S, ht, hs, _, h0, _⟩
-  · rw [skipPc_of_task_eq hs] at h1
-    rcases h1 with h1 | h1
-    · exact .inl h1
-    · exact .inr (.inl h1)
-  · have hsk := skip_is_step (k := k) c pre post cold ov cell todo taken S h0
-    have e1 : (skipPc k e pc).task.toList = [Task.colMove cold ov todo taken S] := by simp [skipPc, hs]
-    have e2 : pc.task.toList = [Task.colMove cold ov (.addHot cell :: todo) taken S] := by simp [ht]
-    rw [e1] at h1
-    rw [e2]
-    rcases h1 with h1 | h1
-    · exact .inr (.inl (by rw [h1]; exact hsk))
-    · exact .inr (.inr ⟨_, hsk, h1⟩)
+          Hp.Step k (withTasks c ts) (withTasks c' (pre ++ pc'.task.toList ++ post)) :=
+  evStep1_refines h pre post
 
 theorem closeCall_pc {Pc} {th th' : Th Pc} {i v : String} (h : closeCall th i v = .ok th') : th'.pc = th.pc := by
   unfold closeCall at h
